@@ -66,9 +66,11 @@ func (s *Scheduler) sendAt(delay time.Duration,
 	payload, err := s.buildMessageToSend(device, frameContext)
 	// If there's an error there's no data to send.
 	if err == nil {
+		stage("sendat.emit", device.DeviceEUI.String())
 		output <- payload
 	}
 	doneChannel <- device.DeviceEUI
+	stage("sendat.done", device.DeviceEUI.String())
 }
 
 // Start launches the scheduler. When the notifier channel is closed it will stop
@@ -89,11 +91,13 @@ func (s *Scheduler) Start() {
 			// duplicate/invalid data checks.
 			if s.scheduled[device.DeviceEUI] {
 				lg.Info("Found duplicate message from device with EUI %s", device.DeviceEUI)
+				stage("sched.dup", device.DeviceEUI.String())
 				continue
 			}
 
 			// this isn't a duplicate. Add it
 			s.scheduled[device.DeviceEUI] = true
+			stage("sched.new", device.DeviceEUI.String())
 			go s.sendAt(s.calculateRxDelay(message), device, s.output, message.FrameContext, s.completed)
 
 		case eui := <-s.completed:
